@@ -37,7 +37,7 @@ PROPS = {
     },
     "C06": {
         "extra_imports": ["Gofasta.Props.Cols", "Gofasta.Props.Cli", "Gofasta.Lemmas.ClosestOrder"],
-        "extra_theorems": ["Gofasta.Props.Cols.closest_append", "Gofasta.Props.Cols.snp_col", "Gofasta.Props.Cols.raw_col", "Gofasta.Props.Cols.tn93_col", "Gofasta.Props.Cli.closest_defaults", "Gofasta.Lemmas.ClosestOrder.topK_spec_on", "Gofasta.Lemmas.ClosestOrder.hitLt_swoOn_nat", "Gofasta.Lemmas.ClosestOrder.hitLt_swoOn_rat",
+        "extra_theorems": ["Gofasta.Props.Cols.closest_append", "Gofasta.Props.Cols.snp_col", "Gofasta.Props.Cols.raw_col", "Gofasta.Props.Cols.tn93_col", "Gofasta.Props.Cli.closest_defaults", "Gofasta.Props.Cli.wiring", "Gofasta.Lemmas.ClosestOrder.topK_spec_on", "Gofasta.Lemmas.ClosestOrder.hitLt_swoOn_nat", "Gofasta.Lemmas.ClosestOrder.hitLt_swoOn_rat",
                            "Gofasta.Lemmas.ClosestOrder.closestN_exact", "Gofasta.Lemmas.ClosestOrder.closest_exact", "Gofasta.Lemmas.ClosestOrder.closestN_exact_characterised",
                            "Gofasta.Lemmas.ClosestOrder.closestN_exact_eq_spec", "Gofasta.Lemmas.ClosestOrder.hitLt_not_swo"],
         "cli": True,
@@ -74,7 +74,7 @@ PROPS = {
     },
     "C04": {
         "extra_imports": ["Gofasta.Props.Cols", "Gofasta.Props.Cli", "Gofasta.Lemmas.VariantsOrder"],
-        "extra_theorems": ["Gofasta.Props.Cols.nucs_append", "Gofasta.Props.Cols.aas_append", "Gofasta.Props.Cli.variant_defaults", "Gofasta.Lemmas.VariantsOrder.variantLt_swo", "Gofasta.Lemmas.VariantsOrder.tied_variantLt", "Gofasta.Lemmas.VariantsOrder.indels_sort_eq", "Gofasta.Lemmas.VariantsOrder.specAll_no_del0", "Gofasta.Lemmas.VariantsOrder.adj_sort_eq_sort_all_iff", "Gofasta.Lemmas.VariantsOrder.model_eq", "Gofasta.Lemmas.VariantsOrder.old_variants_list_eq_iff", "Gofasta.Lemmas.VariantsOrder.dedupRun_sorted", "Gofasta.Lemmas.VariantsOrder.run_sort_eq_sort_all", "Gofasta.Lemmas.VariantsOrder.variants_nodup", "Gofasta.Lemmas.VariantsOrder.variants_sorted", "Gofasta.Lemmas.VariantsOrder.old_eq_new_iff", "Gofasta.Lemmas.VariantsOrder.variants_list_eq_of_nodup", "Gofasta.Lemmas.VariantsOrder.variants_list_eq", "Gofasta.Lemmas.VariantsOrder.variants_list_eq_of_le_one", "Gofasta.Lemmas.VariantsOrder.dedupAll_variants_eq", "Gofasta.Lemmas.VariantsOrder.variants_list_eq_iff_nodup", "Gofasta.Lemmas.VariantsOrder.cx_fixed", "Gofasta.Lemmas.VariantsOrder.cx2_fixed", "Gofasta.Lemmas.VariantsOrder.old_dedup_differs", "Gofasta.Lemmas.VariantsOrder.old_cx_differs", "Gofasta.Lemmas.VariantsOrder.cx_wellformed"],
+        "extra_theorems": ["Gofasta.Props.Cols.nucs_append", "Gofasta.Props.Cols.aas_append", "Gofasta.Props.Cli.variant_defaults", "Gofasta.Props.Cli.wiring", "Gofasta.Lemmas.VariantsOrder.variantLt_swo", "Gofasta.Lemmas.VariantsOrder.tied_variantLt", "Gofasta.Lemmas.VariantsOrder.indels_sort_eq", "Gofasta.Lemmas.VariantsOrder.specAll_no_del0", "Gofasta.Lemmas.VariantsOrder.adj_sort_eq_sort_all_iff", "Gofasta.Lemmas.VariantsOrder.model_eq", "Gofasta.Lemmas.VariantsOrder.old_variants_list_eq_iff", "Gofasta.Lemmas.VariantsOrder.dedupRun_sorted", "Gofasta.Lemmas.VariantsOrder.run_sort_eq_sort_all", "Gofasta.Lemmas.VariantsOrder.variants_nodup", "Gofasta.Lemmas.VariantsOrder.variants_sorted", "Gofasta.Lemmas.VariantsOrder.old_eq_new_iff", "Gofasta.Lemmas.VariantsOrder.variants_list_eq_of_nodup", "Gofasta.Lemmas.VariantsOrder.variants_list_eq", "Gofasta.Lemmas.VariantsOrder.variants_list_eq_of_le_one", "Gofasta.Lemmas.VariantsOrder.dedupAll_variants_eq", "Gofasta.Lemmas.VariantsOrder.variants_list_eq_iff_nodup", "Gofasta.Lemmas.VariantsOrder.cx_fixed", "Gofasta.Lemmas.VariantsOrder.cx2_fixed", "Gofasta.Lemmas.VariantsOrder.old_dedup_differs", "Gofasta.Lemmas.VariantsOrder.old_cx_differs", "Gofasta.Lemmas.VariantsOrder.cx_wellformed"],
         "cli": True,
         "streams": {"C04": (400, 6000)},
         "thorough_seeds": 3,
@@ -97,7 +97,7 @@ PROPS = {
     "C13": {
         "cli": True,
         "extra_imports": ["Gofasta.Props.Cli", "Gofasta.Lemmas.AggCount"],
-        "extra_theorems": ["Gofasta.Props.Cli.variant_defaults", "Gofasta.Lemmas.AggCount.agg_count", "Gofasta.Lemmas.AggCount.agg_count_fold", "Gofasta.Lemmas.AggCount.mem_aggCounts", "Gofasta.Lemmas.AggCount.aggCounts_keys_nodup", "Gofasta.Lemmas.AggCount.agg_count_is_sequences", "Gofasta.Lemmas.AggCount.agg_count_ge_sequences", "Gofasta.Lemmas.AggCount.keyInj_true_model", "Gofasta.Lemmas.AggCount.keyInj_model", "Gofasta.Lemmas.AggCount.agg_count_is_sequences_model_true", "Gofasta.Lemmas.AggCount.agg_count_is_sequences_model", "Gofasta.Lemmas.AggCount.cxb_count_not_sequences", "Gofasta.Lemmas.AggCount.cxc_same_text_two_keys", "Gofasta.Lemmas.AggCount.agg_each_once", "Gofasta.Lemmas.AggCount.agg_rep_is_seq_text", "Gofasta.Lemmas.AggCount.aggTable_nodup", "Gofasta.Lemmas.AggCount.format_erase", "Gofasta.Lemmas.AggCount.mem_aggEntries", "Gofasta.Lemmas.AggCount.cross_mul_iff", "Gofasta.Lemmas.AggCount.agg_threshold", "Gofasta.Lemmas.AggCount.agg_threshold_equal_kept", "Gofasta.Lemmas.AggCount.agg_sorted", "Gofasta.Lemmas.AggCount.agg_perm", "Gofasta.Lemmas.AggCount.mem_aggTable", "Gofasta.Lemmas.AggCount.variants_aggregate_spec", "Gofasta.Lemmas.AggCount.variants_aggregate_spec_rat", "Gofasta.Lemmas.AggCount.variants_aggregate_spec_model"],
+        "extra_theorems": ["Gofasta.Props.Cli.variant_defaults", "Gofasta.Props.Cli.wiring", "Gofasta.Lemmas.AggCount.agg_count", "Gofasta.Lemmas.AggCount.agg_count_fold", "Gofasta.Lemmas.AggCount.mem_aggCounts", "Gofasta.Lemmas.AggCount.aggCounts_keys_nodup", "Gofasta.Lemmas.AggCount.agg_count_is_sequences", "Gofasta.Lemmas.AggCount.agg_count_ge_sequences", "Gofasta.Lemmas.AggCount.keyInj_true_model", "Gofasta.Lemmas.AggCount.keyInj_model", "Gofasta.Lemmas.AggCount.agg_count_is_sequences_model_true", "Gofasta.Lemmas.AggCount.agg_count_is_sequences_model", "Gofasta.Lemmas.AggCount.cxb_count_not_sequences", "Gofasta.Lemmas.AggCount.cxc_same_text_two_keys", "Gofasta.Lemmas.AggCount.agg_each_once", "Gofasta.Lemmas.AggCount.agg_rep_is_seq_text", "Gofasta.Lemmas.AggCount.aggTable_nodup", "Gofasta.Lemmas.AggCount.format_erase", "Gofasta.Lemmas.AggCount.mem_aggEntries", "Gofasta.Lemmas.AggCount.cross_mul_iff", "Gofasta.Lemmas.AggCount.agg_threshold", "Gofasta.Lemmas.AggCount.agg_threshold_equal_kept", "Gofasta.Lemmas.AggCount.agg_sorted", "Gofasta.Lemmas.AggCount.agg_perm", "Gofasta.Lemmas.AggCount.mem_aggTable", "Gofasta.Lemmas.AggCount.variants_aggregate_spec", "Gofasta.Lemmas.AggCount.variants_aggregate_spec_rat", "Gofasta.Lemmas.AggCount.variants_aggregate_spec_model"],
         "streams": {"C13": (600, 8000)},
         "thorough_seeds": 3,
         "rule": "a third snps alignments (1-30 rows, width <= 40), two thirds variants cases; thresholds 0, 1, k/n to three decimals, random percent; half the "
@@ -155,7 +155,7 @@ PROPS = {
     },
     "C15": {
         "extra_imports": ["Gofasta.Props.Cli", "Gofasta.Lemmas.FastaWrite"],
-        "extra_theorems": ["Gofasta.Props.Cli.window_defaults", "Gofasta.Props.Cli.no_option_twice", "Gofasta.Lemmas.FastaWrite.written_reads_back", "Gofasta.Lemmas.FastaWrite.file_bytes"],
+        "extra_theorems": ["Gofasta.Props.Cli.window_defaults", "Gofasta.Props.Cli.wiring", "Gofasta.Props.Cli.no_option_twice", "Gofasta.Lemmas.FastaWrite.written_reads_back", "Gofasta.Lemmas.FastaWrite.file_bytes"],
         "streams": {"C15v": (300, 5000), "C15toma": (300, 5000), "C15topa": (300, 5000)},
         "thorough_seeds": 3,
         "cli": True,
@@ -166,7 +166,7 @@ PROPS = {
     "C08": {
         "cli": True,
         "extra_imports": ["Gofasta.Props.Cli", "Gofasta.Lemmas.Balance", "Gofasta.Lemmas.PushBins", "Gofasta.Lemmas.WhichWaySpec", "Gofasta.Lemmas.TopRankingSpec"],
-        "extra_theorems": ["Gofasta.Props.Cli.topranking_defaults", "Gofasta.Lemmas.PushBins.pushBin_eq", "Gofasta.Lemmas.PushBins.pushMap_mem_keys_iff", "Gofasta.Lemmas.PushBins.topRankingQuery_push", "Gofasta.Lemmas.WhichWaySpec.whichWayTable_spec", "Gofasta.Lemmas.WhichWaySpec.whichWay_getLine", "Gofasta.Lemmas.WhichWaySpec.topRankingQuery_getLine", "Gofasta.Lemmas.fillLoop_inv", "Gofasta.Lemmas.fillLoop_sum_le", "Gofasta.Lemmas.fillLoop_mono",
+        "extra_theorems": ["Gofasta.Props.Cli.topranking_defaults", "Gofasta.Props.Cli.wiring", "Gofasta.Lemmas.PushBins.pushBin_eq", "Gofasta.Lemmas.PushBins.pushMap_mem_keys_iff", "Gofasta.Lemmas.PushBins.topRankingQuery_push", "Gofasta.Lemmas.WhichWaySpec.whichWayTable_spec", "Gofasta.Lemmas.WhichWaySpec.whichWay_getLine", "Gofasta.Lemmas.WhichWaySpec.topRankingQuery_getLine", "Gofasta.Lemmas.fillLoop_inv", "Gofasta.Lemmas.fillLoop_sum_le", "Gofasta.Lemmas.fillLoop_mono",
                            "Gofasta.Lemmas.fillLoop_complete", "Gofasta.Lemmas.balance_fill_spec", "Gofasta.Lemmas.fillLoop_even",
                            "Gofasta.Lemmas.balance_even",
                            "Gofasta.Lemmas.TopRankingSpec.model_passes_checker", "Gofasta.Lemmas.TopRankingSpec.model_passes_checker_args", "Gofasta.Lemmas.TopRankingSpec.checkBins_binsOf", "Gofasta.Lemmas.TopRankingSpec.checkBins_eq", "Gofasta.Lemmas.TopRankingSpec.prefixOk", "Gofasta.Lemmas.TopRankingSpec.distOk", "Gofasta.Lemmas.TopRankingSpec.size_facts", "Gofasta.Lemmas.TopRankingSpec.sumOk_of", "Gofasta.Lemmas.TopRankingSpec.nofillOk_of", "Gofasta.Lemmas.TopRankingSpec.atLeast_of", "Gofasta.Lemmas.TopRankingSpec.fillOk_of", "Gofasta.Lemmas.TopRankingSpec.evenOk_of", "Gofasta.Lemmas.TopRankingSpec.pushOk", "Gofasta.Lemmas.TopRankingSpec.sortCands_eq", "Gofasta.Lemmas.TopRankingSpec.topKG_eq", "Gofasta.Lemmas.TopRankingSpec.binsOf_nopush", "Gofasta.Lemmas.TopRankingSpec.binsOf_push", "Gofasta.Lemmas.TopRankingSpec.balance_bounds", "Gofasta.Lemmas.TopRankingSpec.balance_nofill", "Gofasta.Lemmas.TopRankingSpec.balance_fill"],
@@ -215,7 +215,7 @@ PROPS = {
     },
     "C18": {
         "extra_imports": ["Gofasta.Lemmas.Refusals", "Gofasta.Props.Cli", "Gofasta.Props.Pipes", "Gofasta.Lemmas.SchedProofs", "Gofasta.Lemmas.SchedChainProofs"],
-        "extra_theorems": ["Gofasta.Lemmas.SchedChain.chain_error_reported", "Gofasta.Lemmas.SchedChain.chain_no_deadlock", "Gofasta.Lemmas.Sched.error_reported", "Gofasta.Lemmas.Sched.maximal_run_error", "Gofasta.Lemmas.Sched.no_deadlock", "Gofasta.Props.Pipes.drivers_conform", "Gofasta.Lemmas.Refusals.fails_unequal_rows", "Gofasta.Lemmas.Refusals.readFasta_unequal_rows", "Gofasta.Lemmas.Refusals.readFasta_ok_widths", "Gofasta.Lemmas.Refusals.trailing_header_refused", "Gofasta.Lemmas.Refusals.trailing_header_commands_refused", "Gofasta.Lemmas.Refusals.fails_trailing_header", "Gofasta.Lemmas.Refusals.fails_single_header", "Gofasta.Lemmas.Refusals.snpsOnText_error_iff", "Gofasta.Lemmas.Refusals.listOnText_error_iff", "Gofasta.Lemmas.Refusals.trOnText_error_iff", "Gofasta.Lemmas.Refusals.closestOnText_error_iff", "Gofasta.Lemmas.Refusals.varCommand_error_iff", "Gofasta.Lemmas.Refusals.snpsOnText_valid", "Gofasta.Lemmas.Refusals.listOnText_valid", "Gofasta.Lemmas.Refusals.trOnText_valid", "Gofasta.Lemmas.Refusals.checkArgs_none_iff", "Gofasta.Props.Cli.topranking_defaults", "Gofasta.Props.Cli.window_defaults"],
+        "extra_theorems": ["Gofasta.Lemmas.SchedChain.chain_error_reported", "Gofasta.Lemmas.SchedChain.chain_no_deadlock", "Gofasta.Lemmas.Sched.error_reported", "Gofasta.Lemmas.Sched.maximal_run_error", "Gofasta.Lemmas.Sched.no_deadlock", "Gofasta.Props.Pipes.drivers_conform", "Gofasta.Lemmas.Refusals.fails_unequal_rows", "Gofasta.Lemmas.Refusals.readFasta_unequal_rows", "Gofasta.Lemmas.Refusals.readFasta_ok_widths", "Gofasta.Lemmas.Refusals.trailing_header_refused", "Gofasta.Lemmas.Refusals.trailing_header_commands_refused", "Gofasta.Lemmas.Refusals.fails_trailing_header", "Gofasta.Lemmas.Refusals.fails_single_header", "Gofasta.Lemmas.Refusals.snpsOnText_error_iff", "Gofasta.Lemmas.Refusals.listOnText_error_iff", "Gofasta.Lemmas.Refusals.trOnText_error_iff", "Gofasta.Lemmas.Refusals.closestOnText_error_iff", "Gofasta.Lemmas.Refusals.varCommand_error_iff", "Gofasta.Lemmas.Refusals.snpsOnText_valid", "Gofasta.Lemmas.Refusals.listOnText_valid", "Gofasta.Lemmas.Refusals.trOnText_valid", "Gofasta.Lemmas.Refusals.checkArgs_none_iff", "Gofasta.Props.Cli.topranking_defaults", "Gofasta.Props.Cli.window_defaults", "Gofasta.Props.Cli.wiring"],
         "streams": {"C18": (500, 4000)},
         "thorough_seeds": 3,
         "cli": True,
